@@ -393,3 +393,7 @@ func ParamsOfType(fn *ssa.Function, match func(types.Type) bool) []*ssa.Paramete
 	}
 	return out
 }
+
+func constantInt64(c *types.Const) (int64, bool) {
+	return constant.Int64Val(constant.ToInt(c.Val()))
+}
